@@ -301,3 +301,37 @@ def run(ctx):
     S.run(dr, pe)
     if dr.nproto < 2:
         raise Broken("C02.R8: protocol-error exits of process_ssl_event not found (%d)" % dr.nproto)
+
+    # ------------------------------------------------------------------ R9
+    r9 = ctx.rule("C02.R9", "a graceful close stays graceful: a TLS server sends nothing after the handshake that a send-only peer never reads (session tickets off)")
+    check_no_unread_records(P, r9)
+
+
+def check_no_unread_records(P, rule):
+    """Trusted model: a TLS 1.3 server sends NewSessionTicket records after the handshake unless the context's ticket
+    count is 0; bytes left unread in a socket's receive queue turn its close(2) into a reset, and a reset makes the
+    peer discard what it has not read yet.  XCM reads from the connection only when the application receives, so a
+    client that only sends would reset the connection by closing it: the server loses the tail of the stream/messages."""
+    makers = [f for f in P.fns_in("tls/ctx_store.c") if any(True for _ in f.calls("SSL_CTX_new"))]
+    if len(makers) != 1:
+        raise Broken("no-unread-records: the function creating the SSL_CTX was not found (%d candidates)" % len(makers))
+    f = makers[0]
+    rule.instance(f.qname)
+    off = set()
+    for c in f.calls("SSL_CTX_set_num_tickets"):
+        if C.const_of(f, f.nodes[c]["args"][1]) == 0:
+            off.add(f.where()[c][0])
+    newb = [f.where()[c][0] for c in f.calls("SSL_CTX_new")]
+    # every path from the creation to a successful return (a non-NULL context) passes the call
+    succ_ret = set()
+    for nid, n in f.nodes.items():
+        if n["k"] == "return" and n.get("sub") is not None and C.const_of(f, n["sub"]) != 0:
+            succ_ret.add(f.where()[nid][0])
+    if not succ_ret:
+        raise Broken("no-unread-records: no successful return in %s" % f.name)
+    if off and C.must_pass(f, newb, lambda b: b in off, to_pred=lambda b: b in succ_ret):
+        rule.ok("%s: every context is created with SSL_CTX_set_num_tickets(ctx, 0)" % f.qname, "must-pass between SSL_CTX_new and the successful return")
+    else:
+        rule.violation("%s:session-tickets" % f.name, "the TLS contexts are created without SSL_CTX_set_num_tickets(ctx, 0): a TLS 1.3 server sends session tickets after the "
+                       "handshake (XCM never resumes sessions: the session cache is off); a client that only sends never reads them, its xcm_close() therefore "
+                       "resets the connection, and the server loses bytes/messages it had not read yet although the sender flushed and closed gracefully", loc=f.file)
